@@ -115,3 +115,96 @@ def both_sided(fb):
         if reader_fns(fb, adt) and writer_fns(fb, adt):
             out.append(adt)
     return sorted(out)
+
+
+def rule_enum_tables(chk, fb, rid):
+    """Writer / reader tables of every attribute enum agree: the string written for a variant is read back as that variant."""
+    import hirq
+
+    r = chk.rule(
+        rid,
+        "enum tables agree: for every enum with a to-string table (EnumTrait::get_value_string) and a from-string table (FromStr::from_str), the literal written for each variant is accepted by from_str and maps back to the same variant",
+        floor=300,
+    )
+    W, R = {}, {}
+    for d, h in fb.hir.items():
+        if d.endswith("::get_value_string") and "EnumTrait" in d:
+            for m, rows in hirq.match_tables(h["body"]):
+                for ls, arm in rows:
+                    body = hirq.strip(arm["body"])
+                    if body.get("k") == "block" and body.get("expr") and not body.get("stmts"):
+                        body = hirq.strip(body["expr"])
+                    v = body.get("v") if body.get("k") == "lit" and body.get("lt") == "str" else None
+                    for l in ls or []:
+                        if isinstance(l, str) and l.startswith("path:"):
+                            W.setdefault(h.get("self_ty"), {})[l[5:]] = (v, "%s:%s" % (h["file"], arm.get("ln", h.get("line"))))
+        if d.endswith("::from_str") and "FromStr" in d:
+            for m, rows in hirq.match_tables(h["body"]):
+                for ls, arm in rows:
+                    tgt = [y.get("def") for y in hirq.walk(arm["body"]) if y.get("k") in ("path", "call", "struct") and (y.get("def") or "").startswith((h.get("self_ty") or "?") + "::")]
+                    for l in ls or []:
+                        if isinstance(l, str) and not l.startswith("path:"):
+                            R.setdefault(h.get("self_ty"), {})[l] = tgt[0] if tgt else None
+    for adt in sorted(W):
+        if adt not in R:
+            continue
+        chk.touch(*[d for d in fb.hir if fb.hir[d].get("self_ty") == adt and d.split("::")[-1] in ("get_value_string", "from_str")])
+        for variant, (lit, where) in sorted(W[adt].items()):
+            back = R[adt].get(lit)
+            ok = lit is not None and back == variant
+            chk.ob(r, "%s::%s" % (adt.split("::")[-1], variant.split("::")[-1]), ok, where=where,
+                   detail="written as %r; from_str(%r) gives %s" % (lit, lit, back.split("::")[-1] if back else "no match (the attribute is dropped or falls back to the default)"))
+
+
+def enum_tables(fb):
+    """(W, R): W[enum][variant path] = (literal, where); R[enum][literal] = variant path."""
+    import hirq
+
+    W, R = {}, {}
+    for d, h in fb.hir.items():
+        if d.endswith("::get_value_string") and "EnumTrait" in d:
+            for m, rows in hirq.match_tables(h["body"]):
+                for ls, arm in rows:
+                    body = hirq.strip(arm["body"])
+                    if body.get("k") == "block" and body.get("expr") and not body.get("stmts"):
+                        body = hirq.strip(body["expr"])
+                    v = body.get("v") if body.get("k") == "lit" and body.get("lt") == "str" else None
+                    for l in ls or []:
+                        if isinstance(l, str) and l.startswith("path:"):
+                            W.setdefault(h.get("self_ty"), {})[l[5:]] = (v, "%s:%s" % (h["file"], arm.get("ln", h.get("line"))))
+        if d.endswith("::from_str") and "FromStr" in d:
+            for m, rows in hirq.match_tables(h["body"]):
+                for ls, arm in rows:
+                    tgt = [y.get("def") for y in hirq.walk(arm["body"]) if y.get("k") in ("path", "call", "struct") and (y.get("def") or "").startswith((h.get("self_ty") or "?") + "::")]
+                    for l in ls or []:
+                        if isinstance(l, str) and not l.startswith("path:"):
+                            R.setdefault(h.get("self_ty"), {})[l] = tgt[0] if tgt else None
+    return W, R
+
+
+def rule_enum_spec(chk, fb, rid, side):
+    """The crate's attribute enums against the simple types of ECMA-376 (spec/ecma376.py SIMPLE_TYPES):
+    side="write": every literal the library can write is a value of the simple type;
+    side="read":  every value of the simple type is accepted by from_str."""
+    import importlib.util
+    import os
+
+    spec = importlib.util.spec_from_file_location("ecma376", os.path.join(os.path.dirname(__file__), "..", "spec", "ecma376.py"))
+    E = importlib.util.module_from_spec(spec)
+    spec.loader.exec_module(E)
+    text = {"write": "written enum literals are legal: every string an attribute enum of the listed simple types can be written as is a value of that ECMA-376 simple type",
+            "read": "the reader knows the standard's values: every value of the listed ECMA-376 simple types is accepted by the enum's from_str (an unknown value silently becomes the default)"}[side]
+    r = chk.rule(rid, text, floor=15)
+    W, R = enum_tables(fb)
+    for name, (st, vals) in sorted(E.SIMPLE_TYPES.items()):
+        cands = [a for a in W if a.split("::")[-1] == name and a.count("::") == 2]  # top-level structs::<file>::<Name> (SpreadsheetML, not DrawingML)
+        if not cands:
+            chk.ob(r, "%s:found" % name, False, detail="enum for %s not found" % st)
+            continue
+        adt = cands[0]
+        if side == "write":
+            bad = sorted(l for v, (l, w) in W[adt].items() if l not in vals)
+            chk.ob(r, "%s:writes" % name, not bad, where=fb.adts[adt]["file"] if adt in fb.adts else "", detail="%s: literals outside the simple type: %s" % (st, bad or "none"))
+        else:
+            miss = sorted(v for v in vals if v not in R.get(adt, {}))
+            chk.ob(r, "%s:reads" % name, not miss, where=fb.adts[adt]["file"] if adt in fb.adts else "", detail="%s: values the reader does not accept: %s" % (st, miss or "none"))
